@@ -522,9 +522,13 @@ func (x *exec) finals() []cstate {
 
 var tname = []string{"-", "have", "block"}
 
-// diff classifies the disagreement between the receiver-side list and one client state.
-func diff(exp [nCids]int, recv [nCids]int) (kinds []string, text string) {
-	set := map[string]bool{}
+// diff classifies the disagreement between the receiver-side list and one client state, per CID.
+type cdiff struct {
+	c    int
+	kind string
+}
+
+func diff(exp [nCids]int, recv [nCids]int) (ds []cdiff, text string) {
 	for c := 0; c < nCids; c++ {
 		if exp[c]&(1<<recv[c]) != 0 {
 			continue
@@ -547,75 +551,66 @@ func diff(exp [nCids]int, recv [nCids]int) (kinds []string, text string) {
 		default:
 			k = "type-weaker"
 		}
-		set[k] = true
+		ds = append(ds, cdiff{c, k})
 		text += fmt.Sprintf(" c%d: peer has %s, client wants %s (%s);", c, tname[recv[c]], tname[want], k)
 	}
-	for k := range set {
-		kinds = append(kinds, k)
-	}
-	sort.Strings(kinds)
-	return kinds, text
+	return ds, text
 }
 
 func (x *exec) history() string {
 	return "script: " + x.resolved + "\n" + strings.Join(x.events, "\n") + "\n"
 }
 
-// feature predicates describing the history class (black box, independent of the schedule details)
-func (x *exec) features(kinds []string) []string {
-	rewant, rebro, both, multi := false, false, false, false
-	var wantPeer, wantBcst, cancelled [nCids]bool
-	touch := func(o op) (cs []int) {
-		switch o.K {
-		case "W2", "C2":
-			return []int{0, 1}
-		case "RB", "SL":
-			return nil
-		}
-		return []int{o.C}
+func touches(o op, c int) bool {
+	switch o.K {
+	case "W2", "C2":
+		return c == 0 || c == 1
+	case "WB", "WH", "BH", "CA":
+		return o.C == c
 	}
-	for _, c := range x.calls {
-		if c.o.K == "RB" {
+	return false
+}
+
+// features: predicates describing the class of the history with respect to the diverged CID d.c
+// (black box: computed from the call log, the script and the schedule cost only).
+func (x *exec) features(d cdiff, res *vsched.Result) []string {
+	rewant, rebro, peerL, bcstL := false, false, false, false
+	for _, w := range x.calls {
+		if w.o.K == "RB" {
 			rebro = true
 		}
-		for _, ci := range touch(c.o) {
-			switch c.o.K {
-			case "CA", "C2":
-				cancelled[ci] = true
-			case "BH":
-				wantBcst[ci] = true
-				if cancelled[ci] {
-					rewant = true
-				}
-			case "WB", "WH", "W2":
-				wantPeer[ci] = true
-				if cancelled[ci] {
-					rewant = true
-				}
-			}
+		if !touches(w.o, d.c) || w.o.K == "CA" || w.o.K == "C2" {
+			continue
 		}
-	}
-	for c := 0; c < nCids; c++ {
-		if wantPeer[c] && wantBcst[c] {
-			both = true
+		if w.o.K == "BH" {
+			bcstL = true
+		} else {
+			peerL = true
+		}
+		// a want for the CID that is not ordered strictly before some cancel of the CID
+		for _, a := range x.calls {
+			if (a.o.K == "CA" || a.o.K == "C2") && touches(a.o, d.c) && !(w.ret >= 0 && w.ret < a.start) {
+				rewant = true
+			}
 		}
 	}
 	if x.elapsed >= 30*time.Second {
 		rebro = true // the periodic rebroadcast had a chance to refresh
 	}
-	thr := map[int]bool{}
-	for _, c := range x.calls {
-		if c.o.model() && c.thr > 0 {
-			thr[c.thr] = true
+	dev := 0
+	for i, p := range res.Points {
+		if i < len(res.Choices) && res.Choices[i] < len(p.Costs) {
+			dev += int(p.Costs[res.Choices[i]])
 		}
 	}
-	multi = len(thr) > 1
 	return []string{
-		"diff", strings.Join(kinds, "+"),
-		"want_after_cancel_same_cid", fmt.Sprint(rewant),
+		"diff", d.kind,
+		"want_not_before_cancel_same_cid", fmt.Sprint(rewant),
 		"rebroadcast", fmt.Sprint(rebro),
-		"cid_in_peer_and_broadcast_lists", fmt.Sprint(both),
-		"concurrent_producers", fmt.Sprint(multi),
+		"cid_in_peer_and_broadcast_lists", fmt.Sprint(peerL && bcstL),
+		"queue_stuck", fmt.Sprint(x.stuck),
+		"size_limited", fmt.Sprint(x.sc.maxMsg != bigMsg),
+		"schedule_deviation", fmt.Sprint(dev > 0),
 		"supports_have", fmt.Sprint(x.sc.have),
 	}
 }
@@ -631,22 +626,24 @@ func (x *exec) Check(res *vsched.Result) *eng.Violation {
 	}
 	recv := x.receiver()
 	fin := x.finals()
-	var bestK []string
+	var bestD []cdiff
 	bestT := ""
-	for _, st := range fin {
-		k, t := diff(st.expected(x.sc.have), recv)
-		if len(k) == 0 && !x.stuck {
+	for i, st := range fin {
+		d, t := diff(st.expected(x.sc.have), recv)
+		if len(d) == 0 && !x.stuck {
 			return nil
 		}
-		if bestT == "" || len(t) < len(bestT) || (len(t) == len(bestT) && t < bestT) {
-			bestK, bestT = k, t
+		if i == 0 || len(d) < len(bestD) || (len(d) == len(bestD) && t < bestT) {
+			bestD, bestT = d, t
 		}
 	}
-	if x.stuck && len(bestK) == 0 {
-		return eng.V("queue-not-drained", "quiescence", fmt.Sprintf("pending work is still queued after %d idle debounce rounds: %s\n%s", maxIter, x.dump, x.history()), "supports_have", fmt.Sprint(x.sc.have))
+	if len(bestD) == 0 {
+		// the messages agree with the wants, yet work is queued that no timer or signal will ever send
+		return eng.V("queue-not-drained", "quiescence", fmt.Sprintf("pending work is still queued after %d idle debounce rounds: %s\n%s", maxIter, x.dump, x.history()), x.features(cdiff{-1, "none"}, res)...)
 	}
 	detail := fmt.Sprintf("at quiescence the receiver-side want-list differs from the client's wants under every admissible linearisation (%d); closest:%s\nqueue state: %s\n%s", len(fin), bestT, x.dump, x.history())
-	return eng.V("wantlist-diverged", "quiescence", detail, x.features(bestK)...)
+	// one violation per execution: classified by the lowest diverged CID
+	return eng.V("wantlist-diverged", "quiescence", detail, x.features(bestD[0], res)...)
 }
 
 func (x *exec) Outcome() string {
@@ -690,10 +687,56 @@ func mk(name string, maxMsg int, have bool, pre string, threads ...string) *scri
 }
 
 func scripts(thorough bool) []*script {
+	bound := 2
+	if thorough {
+		bound = 3
+	}
 	var out []*script
-	add := func(s *script) *script { out = append(out, s); return s }
-	add(mk("min-want-cancel", bigMsg, true, "", "WB0 SL50ms CA0"))
-	_ = thorough
+	add := func(s *script, b int) *script { s.delta = b - bound; out = append(out, s); return s }
+	seq := func(name string, maxMsg int, have bool, depth, ncid int, ops string, b int) {
+		add(&script{name: name, maxMsg: maxMsg, have: have, seqDepth: depth, seqCids: ncid, seqOps: strings.Fields(ops)}, b)
+	}
+	// --- E1 side: every operation sequence of one producer, default schedule (bound 0); SL lets the run loop send
+	seq("seq-1cid-d5", bigMsg, true, 5, 1, "WB WH BH CA SL", 0)
+	seq("seq-1cid-d4-rb", bigMsg, true, 4, 1, "WB BH CA RB SL", 0)
+	seq("seq-2cid-d4", bigMsg, true, 4, 2, "WB BH CA SL", 0)
+	seq("seq-2cid-d3-onemsg", oneMsg, true, 3, 2, "WB WH BH CA SL", 0)
+	seq("seq-2cid-d3-nohave", bigMsg, false, 3, 2, "WB WH BH CA SL", 0)
+	if thorough {
+		seq("seq-1cid-d6-long", bigMsg, true, 6, 1, "WB WH BH CA RB SL LG", 0)
+		seq("seq-2cid-d5", bigMsg, true, 5, 2, "WB WH BH CA SL", 0)
+		seq("seq-2cid-d5-onemsg", oneMsg, true, 5, 2, "WB WH BH CA SL", 0)
+		seq("seq-2cid-d4-twomsg", twoMsg, true, 4, 2, "WB WH BH CA SL RB", 0)
+		seq("seq-2cid-d5-nohave", bigMsg, false, 5, 2, "WB WH BH CA SL", 0)
+		seq("seq-1cid-d3-b1", bigMsg, true, 3, 1, "WB WH BH CA RB SL", 1)
+	}
+	// --- E3: hand-picked races, full bound
+	add(mk("cancel-vs-rebroadcastnow", bigMsg, true, "WB0 SL50ms", "RB", "CA0"), bound)
+	add(mk("cancel-vs-timed-rebroadcast", bigMsg, true, "WB0", "SL30s CA0"), bound)
+	add(mk("want-vs-cancel", bigMsg, true, "", "WB0", "CA0"), bound)
+	add(mk("sent-cancel-rewant-vs-cancel", bigMsg, true, "WB0 SL50ms", "CA0 WB0", "CA0"), bound-1)
+	add(mk("have-upgrade-in-flight", bigMsg, true, "", "WH0", "WB0"), bound)
+	add(mk("both-lists-cancel-rewant", bigMsg, true, "WB0 BH0", "CA0 BH0"), bound)
+	add(mk("both-lists-cancel-rewant-peer", bigMsg, true, "WB0 BH0", "CA0 WB0"), bound)
+	add(mk("two-cids-one-entry-messages", oneMsg, true, "", "W2", "C2"), bound)
+	add(mk("two-cids-two-entry-messages", twoMsg, true, "W2 BH2", "C2", "WB1"), bound-1)
+	add(mk("nohave-mixed", bigMsg, false, "", "WH0 BH1", "CA0 WB1"), bound-1)
+	add(mk("three-producers", bigMsg, true, "", "WB0", "CA0", "BH0"), bound-1)
+	f := add(mk("send-failure", bigMsg, true, "", "WB0 CA0", "WH1"), bound-1)
+	f.fail = true
+	// --- E3: systematic pairs, one producer call against two producer calls on the same CID
+	pair := func(name string, maxMsg int, have bool, pre string, b int) {
+		add(mk(name, maxMsg, have, pre, "WB0|WH0|BH0|CA0|RB", "WB0|WH0|BH0|CA0 WB0|WH0|BH0|CA0"), b)
+	}
+	pair("pairs-both-pending", bigMsg, true, "WB0 BH0", 1)
+	if thorough {
+		pair("pairs-empty", bigMsg, true, "", 1)
+		pair("pairs-block-sent", bigMsg, true, "WB0 SL50ms", 1)
+		pair("pairs-both-sent", bigMsg, true, "WH0 BH0 SL50ms", 1)
+		pair("pairs-cancel-pending", bigMsg, true, "WB0 SL50ms CA0", 1)
+		pair("pairs-nohave-both-pending", bigMsg, false, "WH0 BH0", 1)
+		pair("pairs-empty-b2", bigMsg, true, "", 2)
+	}
 	return out
 }
 
